@@ -167,6 +167,25 @@ func checkC07(w *World, r *Report) {
 	r.rule("C07.derive", "every context passed to EVAL, eval_ast, the body helper, macroexpand, Apply, a Func.Fn or a goroutine body is the function's own context parameter or a context.With* child of it, never context.Background()/TODO(); the binder places the adapter's own context in slot 0")
 	r.rule("C07.handler", "the try body runs under the outer context or one context.WithTimeout/WithDeadline child of it, while the catch handler and the finally body receive the outer context itself (they can run after a body timeout but are polled under the caller's deadline)")
 	r.rule("C07.err-total", "the timeout error built at the poll can be constructed for every form: lisperror.GetPosition has no panicking path")
+	// "returns promptly" also on the way out: once the poll has fired, the error climbs through as many levels of
+	// the evaluator as the program had nested; each level hands on the very error it received, so the way out
+	// costs a constant per level (an error re-made or extended at every level makes the return of a deep
+	// recursion take time proportional to the square of the depth)
+	r.rule("C07.unwind", "an error coming back from nested evaluation - the cancellation error included - is returned as the same value by every level of the evaluator: nothing is added to it or copied on the way up (shared with C03.propagate)")
+	{
+		before, beforeF := len(r.Obl), len(r.Floors)
+		rulePropagate(m, r)
+		for i := before; i < len(r.Obl); i++ {
+			if r.Obl[i].Rule == "C03.propagate" {
+				r.Obl[i].Rule = "C07.unwind"
+			}
+		}
+		for i := beforeF; i < len(r.Floors); i++ {
+			if r.Floors[i].Rule == "C03.propagate" {
+				r.Floors[i].Rule = "C07.unwind"
+			}
+		}
+	}
 	regs := w.registeredFuncs()
 	roots := append(evalEntries(w), regs...)
 	roots = append(roots, w.goBodies()...)
